@@ -718,3 +718,45 @@ Proof.
   cbn zeta. unfold transform_cut_wires, new_qubits, cut_wires_gen.
   destruct (structure_mapping nq c). cbn. repeat split.
 Qed.
+
+(* the cut_wires form (any factory) executed with its inserted operations as Moves IS the Move form *)
+Lemma exec_inserted_tcw fac c : forall m, exec_inserted_as_moves c (tcw fac m c) = tcw Move m c.
+Proof.
+  induction c as [|i r IH]; intros m; simpl; [reflexivity|].
+  destruct (is_marker i); simpl; now rewrite IH.
+Qed.
+
+Lemma exec_inserted_cut_wires fac nq c :
+  exec_inserted_as_moves c (cut_wires_gen fac nq c) = cut_wires_moves nq c.
+Proof. apply exec_inserted_tcw. Qed.
+
+Lemma semantics_full_gen fac nq nc c : wf_circ nq c = true ->
+  let t := denote nq nc (erase_markers c) in
+  let t' := denote (nq + count_markers c) nc (exec_inserted_as_moves c (cut_wires_gen fac nq c)) in
+  (forall q, q < nq -> wire t' (final_position c q) = wire t q) /\
+  (forall j, (forall q, q < nq -> j <> final_position c q) -> wire t' j = Zero) /\
+  hc t' = hc t.
+Proof. intros W. rewrite exec_inserted_cut_wires. now apply semantics_full. Qed.
+
+Lemma op_beq_refl o : op_beq o o = true.
+Proof.
+  assert (Q : forall l : qlabel, qlabel_beq l l = true).
+  { intros [[a [b|]]|]; unfold qlabel_beq, option_beq, pair_beq; simpl; rewrite ?Nat.eqb_refl; reflexivity. }
+  assert (O : forall x : option nat, option_beq Nat.eqb x x = true) by (intros [x|]; simpl; [apply Nat.eqb_refl|reflexivity]).
+  destruct o; simpl; rewrite ?Nat.eqb_refl, ?O, ?Q; reflexivity.
+Qed.
+
+(* by operation: valid when the factory op does not already occur in the input *)
+Lemma unwrap_tcw fac c : (forall i, In i c -> op_beq (iop i) fac = false) ->
+  forall m, map (unwrap fac) (tcw fac m c) = tcw Move m c.
+Proof.
+  induction c as [|i r IH]; intros H m; simpl; [reflexivity|].
+  assert (Hr : forall j, In j r -> op_beq (iop j) fac = false) by (intros j Hj; apply H; now right).
+  destruct (is_marker i); simpl.
+  - unfold unwrap at 1. simpl. rewrite op_beq_refl. now rewrite IH.
+  - unfold unwrap at 1. simpl. rewrite (H i) by now left. now rewrite IH.
+Qed.
+
+Lemma unwrap_cut_wires fac nq c : (forall i, In i c -> op_beq (iop i) fac = false) ->
+  map (unwrap fac) (cut_wires_gen fac nq c) = cut_wires_moves nq c.
+Proof. intros H. now apply unwrap_tcw. Qed.
